@@ -87,6 +87,14 @@ impl Cx {
         }
         s
     }
+    /// slot of a reference to a zero-sized value
+    fn slot_zst(&mut self, addr: usize) -> i64 {
+        let (s, inside) = self.lay.locate_zst(self.base, addr);
+        if !inside {
+            self.all_inside = false;
+        }
+        s
+    }
     /// operand (0 = primary, 1 = secondary) and slot of a reference into one of two sets
     fn oslot(&mut self, addr: usize) -> (u8, i64) {
         let (s, inside) = self.lay.locate(self.base, addr);
@@ -959,3 +967,245 @@ pub mod serde_rt {
         }
     }
 }
+
+// ------------------------------------------------------------------ Map<Key, (), N>: zero-sized values
+
+/// The `Map` API on a map whose value type is zero-sized (the map a `Set` wraps).  References to
+/// `()` values are reported as slot positions like any other reference.
+pub fn umap_op<const N: usize>(cx: &mut Cx, m: &mut Map<Key, (), N>, op: &MapOp) -> String {
+    let unit = |o: Option<()>| if o.is_some() { "+()".to_string() } else { "-".to_string() };
+    match op {
+        MapOp::Insert(k, _) => {
+            let k = mk_key(*k);
+            unit(mm(|| m.insert(k, ())))
+        }
+        MapOp::InsertKeyValue(k, _) => {
+            let k = mk_key(*k);
+            let r = Held::new(mm(|| m.insert_key_value(k, ())));
+            match &*r {
+                None => "-".into(),
+                Some((k, _)) => format!("+{}", k.show()),
+            }
+        }
+        MapOp::CheckedInsert(k, _) => {
+            let k = mk_key(*k);
+            match mm(|| m.checked_insert(k, ())) {
+                None => "-".into(),
+                Some(o) => format!("+{}", unit(o)),
+            }
+        }
+        MapOp::Get(p) | MapOp::GetMut(p, _) => {
+            let is_mut = matches!(op, MapOp::GetMut(..));
+            let p = mk_probe(*p);
+            let a = if is_mut {
+                lookup!(p, q => mm(|| m.get_mut(q))).map(|v| v as *const () as usize)
+            } else {
+                lookup!(p, q => mm(|| m.get(q))).map(|v| v as *const () as usize)
+            };
+            match a {
+                None => "-".into(),
+                Some(a) => format!("+@{}=()", cx.slot_zst(a)),
+            }
+        }
+        MapOp::GetKeyValue(p) => {
+            let p = mk_probe(*p);
+            match lookup!(p, q => mm(|| m.get_key_value(q))) {
+                None => "-".into(),
+                Some((k, v)) => {
+                    let s = cx.slot(k as *const Key as usize);
+                    if s != cx.slot_zst(v as *const () as usize) {
+                        cx.all_inside = false;
+                    }
+                    format!("+@{}={}", s, k.show())
+                }
+            }
+        }
+        MapOp::ContainsKey(p) => {
+            let p = mk_probe(*p);
+            format!("{}", lookup!(p, q => mm(|| m.contains_key(q))) as u8)
+        }
+        MapOp::Index(p) => {
+            let p = mk_probe(*p);
+            let v: &() = lookup!(p, q => mm(|| &m[q]));
+            format!("@{}=()", cx.slot_zst(v as *const () as usize))
+        }
+        MapOp::IndexMut(p, _) => {
+            let p = mk_probe(*p);
+            let v: &mut () = lookup!(p, q => mm(|| &mut m[q]));
+            format!("@{}=()", cx.slot_zst(v as *const () as usize))
+        }
+        MapOp::Remove(p) => {
+            let p = mk_probe(*p);
+            unit(lookup!(p, q => mm(|| m.remove(q))))
+        }
+        MapOp::RemoveEntry(p) => {
+            let p = mk_probe(*p);
+            let r = Held::new(lookup!(p, q => mm(|| m.remove_entry(q))));
+            match &*r {
+                None => "-".into(),
+                Some((k, _)) => format!("+{}", k.show()),
+            }
+        }
+        MapOp::Retain(mask, _) => {
+            mm(|| {
+                m.retain(|k, _| {
+                    tick();
+                    log(Ev::Call(0));
+                    mask.checked_shr(k.p.cls as u32).unwrap_or(0) & 1 == 1
+                })
+            });
+            "()".into()
+        }
+        MapOp::Clear => {
+            mm(|| m.clear());
+            "()".into()
+        }
+        MapOp::Len => format!("{}", mm(|| m.len())),
+        MapOp::IsEmpty => format!("{}", mm(|| m.is_empty()) as u8),
+        MapOp::Capacity => format!("{}", mm(|| m.capacity())),
+        MapOp::Iter(kind, _, script) => match kind {
+            IterKind::Iter => {
+                let it = mm(|| m.iter());
+                run_script(cx, it, script, Some(|i| i.clone()), |cx, (k, _)| {
+                    format!("@{}={}", cx.slot(k as *const Key as usize), k.show())
+                })
+            }
+            IterKind::Keys => {
+                let it = mm(|| m.keys());
+                run_script(cx, it, script, Some(|i| i.clone()), |cx, k| {
+                    format!("@{}={}", cx.slot(k as *const Key as usize), k.show())
+                })
+            }
+            IterKind::Values => {
+                let it = mm(|| m.values());
+                run_script(cx, it, script, Some(|i| i.clone()), |cx, v| {
+                    format!("@{}=()", cx.slot_zst(v as *const () as usize))
+                })
+            }
+            IterKind::IterMut => {
+                let it = mm(|| m.iter_mut());
+                run_script(cx, it, script, None, |cx, (k, _)| {
+                    format!("@{}={}", cx.slot(k as *const Key as usize), k.show())
+                })
+            }
+            IterKind::ValuesMut => {
+                let it = mm(|| m.values_mut());
+                run_script(cx, it, script, None, |cx, v| format!("@{}=()", cx.slot_zst(v as *const () as usize)))
+            }
+        },
+        MapOp::Entry(k, mods, fin) => {
+            let key = mk_key(*k);
+            let mut e = mm(|| m.entry(key));
+            let kind = match &e {
+                Entry::Occupied(_) => "occ",
+                Entry::Vacant(_) => "vac",
+            };
+            for _ in mods {
+                e = mm(|| {
+                    e.and_modify(|_| {
+                        tick();
+                        log(Ev::Call(1));
+                    })
+                });
+            }
+            let r = match fin {
+                EntryEnd::OrInsert(_) => {
+                    let r = mm(|| e.or_insert(()));
+                    format!("@{}=()", cx.slot_zst(r as *const () as usize))
+                }
+                EntryEnd::OrInsertWith(_) => {
+                    let r = mm(|| {
+                        e.or_insert_with(|| {
+                            tick();
+                            log(Ev::Call(2));
+                        })
+                    });
+                    format!("@{}=()", cx.slot_zst(r as *const () as usize))
+                }
+                EntryEnd::OrInsertWithKey(_) => {
+                    let r = mm(|| {
+                        e.or_insert_with_key(|_k| {
+                            tick();
+                            log(Ev::Call(3));
+                        })
+                    });
+                    format!("@{}=()", cx.slot_zst(r as *const () as usize))
+                }
+                EntryEnd::Key => {
+                    let s = mm(|| e.key()).show();
+                    mm(|| drop(e));
+                    s
+                }
+                EntryEnd::Drop => {
+                    mm(|| drop(e));
+                    "()".into()
+                }
+                fin => match e {
+                    Entry::Occupied(mut o) => match fin {
+                        EntryEnd::OccKey => mm(|| o.key()).show(),
+                        EntryEnd::OccGet => {
+                            let r = mm(|| o.get());
+                            format!("@{}=()", cx.slot_zst(r as *const () as usize))
+                        }
+                        EntryEnd::OccGetMut(_) => {
+                            let r = mm(|| o.get_mut());
+                            format!("@{}=()", cx.slot_zst(r as *const () as usize))
+                        }
+                        EntryEnd::OccIntoMut => {
+                            let r = mm(|| o.into_mut());
+                            format!("@{}=()", cx.slot_zst(r as *const () as usize))
+                        }
+                        EntryEnd::OccInsert(_) => {
+                            mm(|| o.insert(()));
+                            "()".into()
+                        }
+                        EntryEnd::OccRemove => {
+                            mm(|| o.remove());
+                            "()".into()
+                        }
+                        EntryEnd::OccRemoveEntry => {
+                            let r = Held::new(mm(|| o.remove_entry()));
+                            (*r).0.show()
+                        }
+                        _ => "occupied".into(),
+                    },
+                    Entry::Vacant(v) => match fin {
+                        EntryEnd::VacKey => {
+                            let s = mm(|| v.key()).show();
+                            mm(|| drop(v));
+                            s
+                        }
+                        EntryEnd::VacIntoKey => Held::new(mm(|| v.into_key())).show(),
+                        EntryEnd::VacInsert(_) => {
+                            let r = mm(|| v.insert(()));
+                            format!("@{}=()", cx.slot_zst(r as *const () as usize))
+                        }
+                        _ => {
+                            mm(|| drop(v));
+                            "vacant".into()
+                        }
+                    },
+                },
+            };
+            format!("[{},{}]", kind, r)
+        }
+        MapOp::Fmt(kind) => {
+            match kind {
+                FmtKind::Debug => mm(|| write!(cx.buf, "{:?}", m)).unwrap(),
+                FmtKind::DebugAlt => mm(|| write!(cx.buf, "{:#?}", m)).unwrap(),
+                FmtKind::DebugPad => mm(|| write!(cx.buf, "{:30?}", m)).unwrap(),
+                // `()` is not `Display`, so `Map<Key, (), N>` has no `Display`
+                _ => return "unsupported".into(),
+            }
+            esc(&cx.buf.take())
+        }
+        _ => "unsupported".into(),
+    }
+}
+
+/// a set register seen as the map it wraps
+pub fn as_umap<const N: usize>(s: &mut SetN<N>) -> &mut Map<Key, (), N> {
+    // SAFETY: `Set<T, N>` is `#[repr(transparent)]` over `Map<T, (), N>`
+    unsafe { &mut *(s as *mut SetN<N> as *mut Map<Key, (), N>) }
+}
+
